@@ -92,3 +92,93 @@ def hashing_stubs(module=None, injective=True, safe_json=True):
         yield
     finally:
         mod.hashlib, mod.json = saved
+
+
+# ------------------------------------------------------------------------------------------------
+# interning digest: digests are short tokens, equal iff the pre-images are equal (decided by the solver)
+# ------------------------------------------------------------------------------------------------
+
+
+class InterningHashlib:
+    """hashlib stand-in for code that truncates digests (hexdigest()[0:16]): every distinct pre-image gets its own
+    16-character token; whether a new pre-image equals an earlier one is a (symbolic) comparison, so the engine
+    explores both outcomes. Digest equality <=> pre-image equality by construction (SHA-256 collision freedom)."""
+
+    def __init__(self):
+        self.table = []  # (parts, token)
+
+    def sha256(self, data=None):
+        return _InterningSha(self, data)
+
+
+def _parts_equal(a, b):
+    if len(a) != len(b):
+        return False
+    for x, y in zip(a, b):
+        if type(x) is not type(y) and not (isinstance(x, (bytes, str)) and isinstance(y, (bytes, str))):
+            return False
+        if not (x == y):
+            return False
+    return True
+
+
+class _InterningSha:
+    def __init__(self, owner, data=None):
+        self.owner = owner
+        self.parts = []
+        if data is not None:
+            self.update(data)
+
+    def update(self, data):
+        self.parts.append(data)
+
+    def hexdigest(self):
+        for parts, token in self.owner.table:
+            if _parts_equal(parts, self.parts):
+                return token
+        token = "%016x" % (0xD16E57 * 1000 + len(self.owner.table))
+        self.owner.table.append((list(self.parts), token))
+        return token
+
+    def digest(self):
+        return self.hexdigest().encode("ascii")
+
+
+class ArbitraryOrderFrozenset(frozenset):
+    """A frozenset whose iteration (and repr) order is chosen by the caller: the only contract an unordered
+    container of strings has under hash randomisation."""
+
+    def __new__(cls, items, order):
+        self = super().__new__(cls, items)
+        self._order = list(order)
+        return self
+
+    def __iter__(self):
+        return iter(self._order)
+
+    def __repr__(self):
+        return "frozenset({" + ", ".join(repr(x) for x in self._order) + "})"
+
+
+class PermutedSet(set):
+    """A set of names iterated in a caller-chosen order (see ArbitraryOrderFrozenset)."""
+
+    def __init__(self, items, perm_index):
+        super().__init__(items)
+        import itertools
+
+        base = sorted(items)
+        k = len(base)
+        if k <= 1:
+            self._order = base
+        elif k <= 4:
+            perms = list(itertools.permutations(base))
+            self._order = list(perms[perm_index % len(perms)])
+        else:
+            # rotations and reversed rotations
+            r = perm_index % (2 * k)
+            o = base[r % k:] + base[:r % k]
+            self._order = o[::-1] if r >= k else o
+
+    def __iter__(self):
+        return iter(list(self._order))
